@@ -4,7 +4,7 @@ import nodecheck
 PROFILE = dict(outbound=0.0, peers=2)
 W = nodecheck.weights(retransmit=9, request=7, app_answer=8, accept=4, cer=9)
 N_QUICK, N_THOROUGH, LENGTH = 60, 1500, 22
-THEMES = (("retransmit", 700, 0, None, 0), ("retransmit_two_origins", None, 0, None, 0))
+THEMES = (("retransmit", 700, 0, None, 0), ("retransmit_two_origins", None, 0, None, 0), ("twin_ids", 400, 0, None, 0), ("reused_e2e", None, 0, None, 0))
 FILES = ["Props/C17.v"]
 
 
